@@ -666,9 +666,22 @@ def _run_script(script, comp, wall, vmath):
 
         def AsyncProcessResponse(self, sink_stack, context, stream, msg):
             self.got.append(msg)
+            # the moment a completion reaches the sink above the balancer: what the balancer attributes to its members
+            # right now is what a caller re-dispatching from here (a synchronous retry) would meet
+            at_delivery.append(member_views())
+
+    at_delivery = []
+    delivery_counts = [False]
+
+    def member_views():
+        inheap = set(id(n) for n in sink._heap[1:])
+        return ([view(n) for n in sink._heap[1:]], [view(n) for n in nodes if id(n) not in inheap])
 
     def snapshot(res):
         heap = [view(n) for n in sink._heap[1:]]
+        if at_delivery:
+            # an operation that delivered a completion upward is observed as of that moment (member loads)
+            heap0, off0 = at_delivery[-1]
         down, n, k = [], sink._downq, 0
         while n is not None and k <= len(nodes) + 1:
             down.append(n.nid)
@@ -676,6 +689,8 @@ def _run_script(script, comp, wall, vmath):
             k += 1
         inheap = set(id(n) for n in sink._heap[1:])
         off = [view(n) for n in nodes if id(n) not in inheap]
+        if at_delivery and delivery_counts[0]:
+            heap, off = heap0, off0
         servers = sorted(ep_id(e) for e in sink._servers)
         idle = sorted(ep_id(e) for e in getattr(sink, '_idle_endpoints', ()))
         pend = sorted(ep_id(e) for e in getattr(sink, '_pending_endpoints', ()))
@@ -822,8 +837,10 @@ def _run_script(script, comp, wall, vmath):
             if ent[1] is None:
                 continue
             if not ent[2]:
+                del at_delivery[:]
                 ent[0].AsyncProcessResponseMessage(MethodReturnMessage())
                 ent[2] = True
+                delivery_counts[0] = len(at_delivery) == 1
             else:
                 ent[1]()
                 tags.add('dup-put')
@@ -887,6 +904,8 @@ def _run_script(script, comp, wall, vmath):
             res = res + ['queued']
             tags.add('get-queued')
         steps.append([optxt, snapshot(res)])
+        delivery_counts[0] = False
+        del at_delivery[:]
         for r in adj_rec:
             if r[5] == r[0] + 1:
                 tags.add('adj-expand')
